@@ -30,6 +30,23 @@ pub struct Case {
     /// Some((aaguid, credential id length, id fill byte, x, y))
     pub att: Option<([u8; 16], usize, u8, Vec<u8>, Vec<u8>)>,
     pub ext: Ext,
+    /// order of the EC2 parameters (crv, x, y) inside the COSE key handed to the constructor (0 = as the builder lists them)
+    #[serde(default)]
+    pub key_order: u8,
+    /// a second call of an extension setter after the first one (Ext::None = a setter called with None); which outputs
+    /// survive is not modelled, the encoding must be well-formed and round-trip whatever the sequence was
+    #[serde(default)]
+    pub ext2: Option<Ext>,
+}
+
+fn make_key(x: &[u8], y: &[u8], order: u8) -> coset::CoseKey {
+    let mut key = CoseKeyBuilder::new_ec2_pub_key(iana::EllipticCurve::P_256, x.to_vec(), y.to_vec()).algorithm(iana::Algorithm::ES256).build();
+    const PERMS: [[usize; 3]; 6] = [[0, 1, 2], [0, 2, 1], [1, 0, 2], [1, 2, 0], [2, 0, 1], [2, 1, 0]];
+    if key.params.len() == 3 {
+        let p = PERMS[order as usize % 6];
+        key.params = vec![key.params[p[0]].clone(), key.params[p[1]].clone(), key.params[p[2]].clone()];
+    }
+    key
 }
 
 fn cred_id(len: usize, fill: u8) -> Vec<u8> {
@@ -39,7 +56,7 @@ fn cred_id(len: usize, fill: u8) -> Vec<u8> {
 pub fn build(c: &Case) -> Result<AuthenticatorData, String> {
     let mut ad = AuthenticatorData::new(&c.rp_id, c.counter).set_flags(Flags::from_bits(c.flags & 0x1D).unwrap());
     if let Some((aaguid, len, fill, x, y)) = &c.att {
-        let key = CoseKeyBuilder::new_ec2_pub_key(iana::EllipticCurve::P_256, x.clone(), y.clone()).algorithm(iana::Algorithm::ES256).build();
+        let key = make_key(x, y, c.key_order);
         let acd = AttestedCredentialData::new(Aaguid::from(*aaguid), cred_id(*len, *fill), key).map_err(|e| format!("constructor refused a {len}-byte credential id: {e}"))?;
         ad = ad.set_attested_credential_data(acd);
     }
@@ -50,6 +67,18 @@ pub fn build(c: &Case) -> Result<AuthenticatorData, String> {
         }
         Ext::Get(a) => {
             ad = ad.set_assertion_extensions(Some(get_assertion::SignedExtensionOutputs { hmac_secret: a.clone().map(Into::into) })).map_err(|e| format!("set_assertion_extensions: {e:?}"))?;
+        }
+    }
+    match &c.ext2 {
+        None => {}
+        Some(Ext::None) => {
+            ad = if c.flags & 1 == 0 { ad.set_make_credential_extensions(None) } else { ad.set_assertion_extensions(None) }.map_err(|e| format!("extension setter called with None: {e:?}"))?;
+        }
+        Some(Ext::Make(a, b)) => {
+            ad = ad.set_make_credential_extensions(Some(make_credential::SignedExtensionOutputs { hmac_secret: *a, hmac_secret_mc: b.clone().map(Into::into) })).map_err(|e| format!("set_make_credential_extensions (second call): {e:?}"))?;
+        }
+        Some(Ext::Get(a)) => {
+            ad = ad.set_assertion_extensions(Some(get_assertion::SignedExtensionOutputs { hmac_secret: a.clone().map(Into::into) })).map_err(|e| format!("set_assertion_extensions (second call): {e:?}"))?;
         }
     }
     Ok(ad)
@@ -86,7 +115,10 @@ pub fn check(ctx: &mut Ctx, c: &Case, prefixes: bool) -> Result<(), String> {
     if (v.flags & AT != 0) != c.att.is_some() {
         return Err(format!("AT bit is {} but attested credential data present = {}", v.flags & AT != 0, c.att.is_some()));
     }
-    if (v.flags & ED != 0) != has_ext(c) {
+    if (v.flags & ED != 0) != v.ext.is_some() {
+        return Err(format!("ED bit is {} but an extension map follows = {}", v.flags & ED != 0, v.ext.is_some()));
+    }
+    if c.ext2.is_none() && (v.flags & ED != 0) != has_ext(c) {
         return Err(format!("ED bit is {} but extension data present = {}", v.flags & ED != 0, has_ext(c)));
     }
     if v.counter != c.counter.unwrap_or(0) {
@@ -100,7 +132,7 @@ pub fn check(ctx: &mut Ctx, c: &Case, prefixes: bool) -> Result<(), String> {
         if a.cred_id != cred_id(*len, *fill) {
             return Err(format!("credential id section differs (declared/decoded length {}, expected {len})", a.cred_id.len()));
         }
-        let key = CoseKeyBuilder::new_ec2_pub_key(iana::EllipticCurve::P_256, x.clone(), y.clone()).algorithm(iana::Algorithm::ES256).build();
+        let key = make_key(x, y, c.key_order);
         if a.key_raw != key.to_vec().map_err(|e| format!("{e}"))? {
             return Err("COSE key bytes differ from the key's CBOR encoding".into());
         }
@@ -109,7 +141,7 @@ pub fn check(ctx: &mut Ctx, c: &Case, prefixes: bool) -> Result<(), String> {
             return Err("COSE key x differs".into());
         }
     }
-    if has_ext(c) {
+    if has_ext(c) && c.ext2.is_none() {
         let e = v.ext.as_ref().ok_or("extension map missing")?;
         let m = e.as_map().ok_or("extension data is not a CBOR map")?;
         let want: Vec<(&str, bool)> = match &c.ext {
@@ -167,7 +199,7 @@ pub fn check(ctx: &mut Ctx, c: &Case, prefixes: bool) -> Result<(), String> {
             }
         }
     }
-    if c.att.is_none() && !has_ext(c) {
+    if c.att.is_none() && v.ext.is_none() {
         for bit in [AT, ED] {
             let mut m = bytes.clone();
             m[32] |= bit;
@@ -209,6 +241,13 @@ pub fn check(ctx: &mut Ctx, c: &Case, prefixes: bool) -> Result<(), String> {
             }
         }
     }
+    let has_ext = |_: &Case| v.ext.is_some();
+    if c.ext2.is_some() {
+        ctx.class("second extension setter call");
+    }
+    if c.att.is_some() && c.key_order % 6 != 0 {
+        ctx.class("COSE key parameters not in builder order");
+    }
     if c.att.is_some() || has_ext(c) {
         ctx.nontrivial(c);
     }
@@ -243,7 +282,8 @@ fn case() -> impl Strategy<Value = Case> {
         2 => (proptest::option::of(any::<bool>()), proptest::option::of(proptest::collection::vec(any::<u8>(), 0..70))).prop_map(|(a, b)| Ext::Make(a, b)),
         2 => proptest::option::weighted(0.8, proptest::collection::vec(any::<u8>(), 0..70)).prop_map(Ext::Get),
     ];
-    (rp, counter, any::<u8>(), att, ext).prop_map(|(rp_id, counter, flags, att, ext)| Case { rp_id, counter, flags: flags & 0x1D, att, ext })
+    let ext2 = proptest::option::weighted(0.25, ext.clone());
+    (rp, counter, any::<u8>(), att, ext, prop_oneof![2 => Just(0u8), 1 => 0u8..6], ext2).prop_map(|(rp_id, counter, flags, att, ext, key_order, ext2)| Case { rp_id, counter, flags: flags & 0x1D, att, ext, key_order, ext2 })
 }
 
 fn check_any(ctx: &mut Ctx, c: &Case, prefixes: bool) -> Result<(), String> {
@@ -281,7 +321,7 @@ pub fn run(ctx: &mut Ctx) {
     }
     // boundary ids, always
     for len in [0usize, 1, 15, 16, 64, 255, 256, 1023, 1024, 4096, 65534, 65535, 65536, 70000].into_iter().filter(|_| fs) {
-        let c = Case { rp_id: "example.com".into(), counter: Some(7), flags: 0x05, att: Some(([9; 16], len, 3, vec![1; 32], vec![2; 32])), ext: Ext::Make(Some(true), None) };
+        let c = Case { rp_id: "example.com".into(), counter: Some(7), flags: 0x05, att: Some(([9; 16], len, 3, vec![1; 32], vec![2; 32])), ext: Ext::Make(Some(true), None), key_order: 0, ext2: None };
         if let Err(e) = check_any(ctx, &c, false) {
             ctx.violation("boundary", json!(c), &e);
         }
